@@ -293,6 +293,14 @@ def main():
             if txt != "self . work . reset_received ( ) ;":
                 raise CannotTranslate(f"Drop for {result} is not `self.work.reset_received();`: `{txt}`")
             parts.append(f"/-- `Drop for {result}`: `{txt}` -/\ndef {result}_drop_calls_reset_received : Bool := true\n")
+            # the result object is just the borrowed work: `Self { work }`
+            cands = [x for x in items if x[1] == "new" and re.search(rf"^impl.*\b{result}\s*<", x[0])]
+            if len(cands) != 1:
+                raise CannotTranslate(f"{file}: expected exactly one `{result}::new`")
+            txt = " ".join(t[1] for t in cands[0][3])
+            if txt != "Self { work }":
+                raise CannotTranslate(f"{result}::new is not `Self {{ work }}`: `{txt}`")
+            parts.append(f"/-- `{result}::new`: `{txt}` -/\ndef {result}_new_is_the_work : Bool := true\n")
             # accessor delegation
             cands = [x for x in items if x[1] == acc and re.search(rf"^impl\s+{result}\b", x[0])]
             if len(cands) != 1:
